@@ -172,6 +172,23 @@ def cb : P String := do
   let vd := vd.diffIf (!(closeQ tol (dot S bf (val e)) value)) "crossSumBestAtBelief value_differs"
   return vd.render
 
+/-- `pbvi pomdp nB beliefs h | vf` : the whole PBVI run against `pbviRun` -/
+def pbvi : P String := do
+  let m ← pomdpP; let bs ← P.list P.qs; let h ← P.nat; P.bar
+  let v ← vfP; P.eof
+  let mv := pbviRun m (bs.map bfun) h
+  let vd : Verdict := { tag := "pbvi" }
+  let bad := match v with | [] => none | v0 :: rest => firstBad m 1 v0 rest
+  let vd := match bad with
+    | some (hh, what, dev) => vd.failIf true s!"PBVI {what} horizon={hh} dev={qstr dev}"
+    | none => vd
+  -- the model is exact; the implementation is compared only where no rounding can have flipped a tie
+  let exact := match v with | [] => false | v0 :: rest => consistentFrom eqQ m v0 rest
+  let same := mv.length == v.length && (mv.zip v).all (fun p => sameVList p.1 p.2)
+  let vd := if same then vd else if exact then vd.diffIf true s!"PBVI model_differs sizes model={mv.map (·.length)} impl={v.map (·.length)}"
+            else { vd with tag := "pbvi rounded" }
+  return vd.render
+
 def handle (toks : List String) : String :=
   let r := match toks with
     | "vf" :: rest => P.run vf rest
@@ -180,6 +197,7 @@ def handle (toks : List String) : String :=
     | "cs" :: rest => P.run cs rest
     | "pj" :: rest => P.run pj rest
     | "cb" :: rest => P.run cb rest
+    | "pbvi" :: rest => P.run pbvi rest
     | _ => none
   r.getD "bad-op"
 
